@@ -9,7 +9,7 @@ P layer : spec/trace/TraceFullSync.tla judges each real RedisOutput.Send (snapsh
           C04 faults (truncation, byte alteration, target error, cancellation with the window held
           open by a gated reply; loader-level enumeration of every truncation / alteration),
           C20 key-exists policies with prior target contents."""
-import json, os, time, shutil
+import json, os, sys, time, shutil
 import vlib
 
 SPEC = os.path.join(vlib.VERIF, "spec")
@@ -37,6 +37,50 @@ def check(prop, tier, seed, replay):
         vlib.cleanup(work)
 
 
+def _limit_as():
+    import resource
+    resource.setrlimit(resource.RLIMIT_AS, (24 << 30, 24 << 30))
+
+
+def _reproduce_crash(drv, work, prop, mode, seed, n, stride, shards, shard, out):
+    """The driver died (Go fatal error / unrecovered panic).  If it was handling a damaged snapshot, run that input again in a
+    process of its own with a bounded address space: dies again -> the real code crashes on damaged input (C04);
+    survives -> the death was the harness's or the machine's, a harness error."""
+    import subprocess
+    cur = os.path.join(work, "%s%d.ndjson.cur" % (mode, shard))
+    if prop != "C04" or not os.path.exists(cur):
+        return None
+    info = json.load(open(cur))
+    if mode == "loader" and info.get("damaged"):
+        cmd = [drv, "-mode", "loader-one", "-input", cur + ".bin"]
+    else:
+        cmd = [drv, "-mode", mode, "-seed", str(seed), "-n", str(n), "-flip-stride", str(stride), "-shard", str(shard), "-shards", str(shards),
+               "-only", str(info["i"]), "-base", str(info.get("base", 0)), "-variant", str(info.get("variant", -1)), "-input", cur + ".bin", "-out", os.path.join(work, "re.ndjson"), "-stats", os.path.join(work, "re.json")]
+    died = 0
+    last = ""
+    for _ in range(2):
+        try:
+            p = subprocess.run(cmd, env=vlib.GOENV, stdout=subprocess.PIPE, stderr=subprocess.STDOUT, text=True, errors="replace", timeout=900, preexec_fn=_limit_as)
+        except subprocess.TimeoutExpired:
+            return None
+        last = p.stdout
+        if p.returncode != 0 and ("fatal error:" in last or "panic:" in last or "(hang)" in last) and "HARNESS-ERROR" not in last.split("goroutine")[0]:
+            died += 1
+    if died < 2:
+        print("the death of the driver did not reproduce in isolation (%d of 2): %s ... %s" % (died, last[:300], last[-300:]), file=sys.stderr)
+        return None
+    head = last[:last.find("\n\n")] if "\n\n" in last else last[:400]
+    hang = [x for x in last.splitlines() if "(hang)" in x]
+    if hang:
+        head = hang[0]
+    frames = [x.strip() for x in last.splitlines() if "redis-GunYu/" in x and "(" in x][:6]
+    rep = {"property": prop, "invariants": ["C04_DamagedInputHangs" if hang else "C04_CrashOnDamagedInput"], "mode": mode, "seed": seed, "scenario_index": info["i"], "command": cmd[1:], "death": head, "frames": frames}
+    if mode == "loader" and info.get("damaged"):
+        rep["damaged_snapshot_hex"] = open(cur + ".bin", "rb").read().hex()
+    path = vlib.save_replay(prop, "crash%d" % shard, rep)
+    return {"replay": path, "what": "%s: the process %s on a damaged snapshot (%s) in %s" % (rep["invariants"][0], "hangs" if hang else "dies", head.splitlines()[0] if head else "?", frames[:3])}
+
+
 def _check(prop, tier, seed, replay, work, t0):
     drv = vlib.build_driver("fullsyncdrv", work)
     states = trans = 0
@@ -62,8 +106,15 @@ def _check(prop, tier, seed, replay, work, t0):
                     n = 320 if tier == "quick" else 3200
             cmds = [[drv, "-mode", mode, "-seed", str(seed), "-n", str(n), "-flip-stride", str(stride), "-shard", str(i), "-shards", str(shards),
                      "-out", os.path.join(work, "%s%d.ndjson" % (mode, i)), "-stats", os.path.join(work, "%s%d.json" % (mode, i))] for i in range(shards)]
-            for rc, out in vlib.run_parallel(cmds, timeout=3000):
+            for i, (rc, out) in enumerate(vlib.run_parallel(cmds, timeout=3000)):
                 if rc != 0:
+                    crash = _reproduce_crash(drv, work, prop, mode, seed, n, stride, shards, i, out)
+                    if crash:
+                        cov = {"states": states, "transitions": trans, "traces_validated_against_impl": nscen, "samples": samples[:3], "exhaustive": False,
+                               "explanation": "the driver process died while the real code handled a damaged snapshot; reproduced in a process of its own"}
+                        vlib.write_evidence(prop, tier, seed, "model_checking", cov, [], time.time() - t0, 1)
+                        vlib.conclude(prop, [crash], [])
+                        return
                     raise vlib.HarnessError("fullsyncdrv %s failed (%d):\n%s" % (mode, rc, out[-3000:]))
             for i in range(shards):
                 s = json.load(open(os.path.join(work, "%s%d.json" % (mode, i))))
